@@ -9,7 +9,7 @@ CLAUSES = {
     "no-crash": "the step raises no exception",
     "horizontal-scale": "dX_i * dx_i = k * xi and dY_i * dx_i = k * xi' with k >= 0, k^2 = 2 D dt (no constant term: zero mean), for all D, dt, dx, draws",
     "vertical-scale": "dZ_i = kz * xi'' with kz >= 0, kz^2 = 2 Dz dt",
-    "independent-draws": "every displacement component of every particle and step uses its own draw, each draw is used once",
+    "independent-draws": "every displacement component of every particle, direction and step is carried by a draw of its own (no draw serves two components; however the generator is called)",
     "deterministic-when-off": "with D = 0 and Dz = 0 the generator is never called and positions are unchanged",
 }
 BOUNDS = {"quick": "1-3 particles, two consecutive steps, D, Dz, dt, dx_i, draws: any positive reals / any reals",
@@ -25,6 +25,7 @@ def scenarios(tier):
     for npart in ((1, 3) if q else (1, 2, 4)):
         out.append(dict(name=f"horizontal-p{npart}", fn="horizontal", params=dict(npart=npart, steps=2 if q else 3), cost=5))
     out.append(dict(name="vertical", fn="vertical", params=dict(npart=2), cost=3))
+    out.append(dict(name="both", fn="both", params=dict(npart=2), cost=3))
     out.append(dict(name="off", fn="off", params=dict(npart=2), cost=1))
     return out
 
@@ -33,14 +34,15 @@ def _sqrt(W, v):
     return W.core.sym_sqrt(v) if W.symbolic else math.sqrt(v)
 
 
-def _mk(W, npart, D, Dz, dt, dx, z0=None, adv=""):
+def _mk(W, npart, D, Dz, dt, dx, z0=None, adv="", dy=None, tag=""):
+    dy = dx if dy is None else dy
     trk, st = W.load("ladim.tracker"), W.load("ladim.state")
 
     class Grid:
         xmin, xmax, ymin, ymax = 0, 1000000, 0, 1000000
 
         def metric(self, X, Y):
-            return W.arr(list(dx), "f"), W.arr(list(dx), "f")
+            return W.arr(list(dx), "f"), W.arr(list(dy), "f")
 
         def ingrid(self, X, Y):
             return W.arr([True] * len(X), "b")
@@ -58,8 +60,8 @@ def _mk(W, npart, D, Dz, dt, dx, z0=None, adv=""):
             raise AssertionError("no advection requested")
 
     S = st.State()
-    x = [W.real(f"x{n}", 1000, 2000) for n in range(npart)]
-    y = [W.real(f"y{n}", 1000, 2000) for n in range(npart)]
+    x = [W.real(f"{tag}x{n}", 1000, 2000) for n in range(npart)]
+    y = [W.real(f"{tag}y{n}", 1000, 2000) for n in range(npart)]
     z = [z0 if z0 is not None else 5] * npart
     S.append(X=W.arr(x, "f"), Y=W.arr(y, "f"), Z=W.arr(z, "f"))
     T = trk.Tracker(advection=adv, diffusion=D, vertdiff=Dz, modules=dict(state=S, grid=Grid(), forcing=Force(), time=Timer(dt)))
@@ -67,26 +69,75 @@ def _mk(W, npart, D, Dz, dt, dx, z0=None, adv=""):
     return S, T, x, y
 
 
+def _draws(W):
+    out = []
+    for (c, n) in W.rng_calls():
+        for i in range(n):
+            if (c, i) not in out:  # a re-seeded generator hands out the same draw again
+                out.append((c, i))
+    return out
+
+
+def _generic(W):
+    """draws are generic: pairwise different and non-zero (a null set is excluded; keeps counterexample models unambiguous)"""
+    ds = _draws(W)
+    conds = [W.not_(W.eq(W.xi(*d), 0)) for d in ds]
+    for i in range(len(ds)):
+        for j in range(i + 1, len(ds)):
+            conds.append(W.not_(W.eq(W.xi(*ds[i]), W.xi(*ds[j]))))
+            conds.append(W.not_(W.eq(W.xi(*ds[i]), -W.xi(*ds[j]))))
+    W.assume(W.all(conds), "normal draws are generic: non-zero and pairwise different in absolute value")
+
+
+def _match(W, comps, k, used, clause, info):
+    """every displacement component must equal k * (one draw of its own): find that draw by asking the solver"""
+    assign = []
+    for name, val in comps:
+        hit = None
+        for d in _draws(W):
+            if d in used:
+                continue
+            ok = W.E.decide(W.core.z3.Not(W.eq(val, k * W.xi(*d)).e))[0] == "unsat" if W.symbolic else W.truth(W.eq(val, k * W.xi(*d)))
+            if ok:
+                hit = d
+                break
+        if hit is None:
+            # no unused draw carries this component: either it is no scaled draw at all, or it shares a draw with another component
+            any_draw = W.any([W.eq(val, k * W.xi(*d)) for d in _draws(W)])
+            W.prove(any_draw, clause, dict(info, component=name, note="is not k * xi for any draw"))
+            shared = [d for d in used if (W.E.decide(W.core.z3.Not(W.eq(val, k * W.xi(*d)).e))[0] == "unsat" if W.symbolic else W.truth(W.eq(val, k * W.xi(*d))))]
+            W.prove(not shared, "independent-draws", dict(info, component=name, shares_draw=shared[:2]))
+        else:
+            used.add(hit)
+        assign.append((name, hit))
+    return assign
+
+
 def horizontal(W, p):
     npart = p["npart"]
     D = W.real("D", 0, 10 ** 4, lo_strict=True)
     dt = W.real("dt", 1, 10 ** 5)
     dx = [W.real(f"dx{n}", 1, 10 ** 4) for n in range(npart)]
-    S, T, x, y = _mk(W, npart, D, 0, dt, dx)
+    dy = [W.real(f"dy{n}", 1, 10 ** 4) for n in range(npart)]
+    S, T, x, y = _mk(W, npart, D, 0, dt, dx, dy=dy)
     k = _sqrt(W, 2 * D * dt)
     px, py = list(x), list(y)
+    used = set()
     for s in range(p["steps"]):
         T.update()
-        X1, Y1 = W.tolist(S.X), W.tolist(S.Y)
-        calls = W.rng_calls()
-        W.prove(calls == [(c, npart) for c in range(2 * (s + 1))], "independent-draws", dict(step=s, calls=calls))
-        if calls != [(c, npart) for c in range(2 * (s + 1))]:
-            return ("calls",)
-        conds = []
+        X1, Y1, Z1 = W.tolist(S.X), W.tolist(S.Y), W.tolist(S.Z)
+        comps = []
         for n in range(npart):
-            conds.append(W.eq((X1[n] - px[n]) * dx[n], k * W.xi(2 * s, n)))
-            conds.append(W.eq((Y1[n] - py[n]) * dx[n], k * W.xi(2 * s + 1, n)))
-        W.prove(W.all(conds), "horizontal-scale", dict(step=s))
+            comps.append((f"dX{n}@{s}", (X1[n] - px[n]) * dx[n]))
+            comps.append((f"dY{n}@{s}", (Y1[n] - py[n]) * dy[n]))
+        _generic(W)
+        # scale and zero mean: each component is exactly k * xi for a draw xi of its own (k >= 0, k^2 = 2 D dt);
+        # independence: no draw carries two components (across particles, directions and steps)
+        assign = _match(W, comps, k, used, "horizontal-scale", dict(step=s))
+        ds = [d for nm, d in assign if d is not None]
+        W.prove(len(set(ds)) == len(ds), "independent-draws", dict(step=s))
+        W.prove(True, "horizontal-scale")
+        W.prove(W.all([W.eq(zz, 5) for zz in Z1]), "horizontal-scale", dict(step=s, note="depth untouched with Dz = 0"))
         px, py = X1, Y1
     return ("horizontal", npart)
 
@@ -98,11 +149,46 @@ def vertical(W, p):
     S, T, x, y = _mk(W, npart, 0, Dz, dt, [100] * npart)
     kz = _sqrt(W, 2 * Dz * dt)
     Wv = T.diffuse_vert(num_particles=npart)
-    calls = W.rng_calls()
-    W.prove(calls == [(0, npart)], "independent-draws", dict(calls=calls))
     got = W.tolist(Wv)
-    W.prove(W.all([W.eq(got[n] * dt, kz * W.xi(0, n)) for n in range(npart)]), "vertical-scale")
+    _generic(W)
+    assign = _match(W, [(f"dZ{n}", got[n] * dt) for n in range(npart)], kz, set(), "vertical-scale", {})
+    W.prove(True, "vertical-scale")
+    W.prove(True, "independent-draws")
+    # through update(): with D = 0 the horizontal position is untouched and no horizontal draw is consumed
+    S2, T2, x2, y2 = _mk(W, npart, 0, Dz, dt, [100] * npart, z0=10 ** 6, tag="b")
+    before = len(_draws(W))
+    T2.update()
+    W.prove(W.all([W.eq(a, b) for a, b in zip(W.tolist(S2.X) + W.tolist(S2.Y), x2 + y2)]) if W.symbolic else all(W.eq(a, b) for a, b in zip(W.tolist(S2.X) + W.tolist(S2.Y), x2 + y2)), "deterministic-when-off", dict(note="D = 0, Dz > 0: horizontal position unchanged"))
+    W.prove(len(_draws(W)) - before == npart, "independent-draws", dict(note="vertical diffusion alone consumes one draw per particle", consumed=len(_draws(W)) - before))
     return ("vertical",)
+
+
+def both(W, p):
+    """horizontal and vertical diffusion together: each keeps its own scale and its own draws"""
+    npart = p["npart"]
+    D = W.real("D", 0, 10 ** 4, lo_strict=True)
+    Dz = W.real("Dz", 0, 10, lo_strict=True)
+    dt = W.real("dt", 1, 10 ** 5)
+    dx = [W.real(f"dx{n}", 1, 10 ** 4) for n in range(npart)]
+    dy = [W.real(f"dy{n}", 1, 10 ** 4) for n in range(npart)]
+    S, T, x, y = _mk(W, npart, D, Dz, dt, dx, z0=10 ** 7, dy=dy)
+    k, kz = _sqrt(W, 2 * D * dt), _sqrt(W, 2 * Dz * dt)
+    T.update()
+    _generic(W)
+    W.assume(W.all([W.all([W.le(-100, W.xi(*d)), W.le(W.xi(*d), 100)]) for d in _draws(W)]), "draws within +-100 standard deviations (keeps the particle far from surface and bottom: no reflection)")
+    X1, Y1, Z1 = W.tolist(S.X), W.tolist(S.Y), W.tolist(S.Z)
+    used = set()
+    comps = []
+    for n in range(npart):
+        comps.append((f"dX{n}", (X1[n] - x[n]) * dx[n]))
+        comps.append((f"dY{n}", (Y1[n] - y[n]) * dy[n]))
+    _match(W, comps, k, used, "horizontal-scale", dict(mode="both"))
+    # depth: far from surface and bottom (no reflection): dZ = kz * xi
+    _match(W, [(f"dZ{n}", Z1[n] - 10 ** 7) for n in range(npart)], kz, used, "vertical-scale", dict(mode="both"))
+    W.prove(len(_draws(W)) == 3 * npart, "independent-draws", dict(draws=len(_draws(W)), expected=3 * npart))
+    W.prove(True, "horizontal-scale")
+    W.prove(True, "vertical-scale")
+    return ("both",)
 
 
 def off(W, p):
